@@ -1,6 +1,11 @@
 #!/bin/sh
-# seed_round.sh <property> <n>… : confirm seeds from /tmp/seed/out/<property>/<n> and run them against the property's check
+# seed_round.sh <property> <n>… : confirm seeds from /tmp/seed/out/<property>/<n> and run them against the property's check.
+# Uses private scratch copies tagged by the property (SEED_TAG), so rounds for different properties can run side by side.
 P=$1; shift
+export SEED_TAG=-$P
 for n in "$@"; do /verif/tools/confirm_seed.sh $P $n 2>&1 | tail -1; done
-ids=""; for n in "$@"; do ids="$ids $P-$n"; done
-python3 /verif/tools/seed_report.py $ids 2>&1 | grep -v "^WARNING"
+ids=""; for n in "$@"; do [ -d /verif/seeded/$P-$n ] && ids="$ids $P-$n"; done
+[ -n "$ids" ] && python3 /verif/tools/seed_report.py $ids 2>&1 | grep -v "^WARNING"
+git -C /repo worktree remove --force /tmp/confirm-wt$SEED_TAG 2>/dev/null
+git -C /repo worktree remove --force /tmp/mutrepo$SEED_TAG 2>/dev/null
+rm -rf /tmp/mutverif$SEED_TAG /tmp/mutverif$SEED_TAG.src
